@@ -9,8 +9,9 @@ Fits(ids) == Len(ids) <= Cap                     \* abstract capacity (the trace
 Cmds == [tool : {"asm"}, sw : {"bin", "cas", "dsk"}, app : BOOLEAN, named : BOOLEAN, new : {<<9>>}, srcn : {0}]
    \cup [tool : {"util"}, sw : {"bin", "cas", "dsk"}, app : BOOLEAN, named : {TRUE}, new : {<<>>, <<201>>, <<201, 202>>}, srcn : {1, 2}]
    \cup [tool : {"util"}, sw : {"list"}, app : {FALSE}, named : {TRUE}, new : {<<>>}, srcn : {0}]
+\* (C("dsk", FALSE, <<>>) is a formatted disk holding no file)
 Inits == {Absent, C("empty", FALSE, <<>>), C("cas", FALSE, <<101, 102>>), C("cas", TRUE, <<101, 102, 103>>),
-          C("dsk", FALSE, <<101, 102>>), C("dsk", FALSE, [k \in 1..Cap |-> 100 + k]), C("raw", FALSE, <<101>>), C("junk", FALSE, <<>>)}
+          C("dsk", FALSE, <<101, 102>>), C("dsk", FALSE, [k \in 1..Cap |-> 100 + k]), C("dsk", FALSE, <<>>), C("raw", FALSE, <<101>>), C("junk", FALSE, <<>>)}
 VARIABLES fs, hist
 vars == <<fs, hist>>
 Init == fs \in Inits /\ hist = <<[init |-> fs]>>
